@@ -481,6 +481,56 @@ func decompose(_ *ir.Module, fn *ir.Function, varIdx uint32, info *candidateInfo
 		insertEmitForRange(&bodySlice, loadH, ir.Range{Start: newExprStart, End: newExprEnd})
 		fn.Body = ir.Block(bodySlice)
 	}
+
+	// Step 5: Rewrite full struct stores of a Compose to per-member stores.
+	fn.Body = splitFullStores(fn, fn.Body, varIdx, fieldExprHandles)
+}
+
+// splitFullStores replaces every store of a Compose to the whole struct local
+// by one store per member to the member's new local. classifyStmts keeps a
+// struct eligible when it is stored to like that; without this step the
+// per-member locals never receive the stored values.
+func splitFullStores(fn *ir.Function, block ir.Block, varIdx uint32, fieldPtrs map[uint32]ir.ExpressionHandle) ir.Block {
+	out := make(ir.Block, 0, len(block))
+	for i := range block {
+		switch sk := block[i].Kind.(type) {
+		case ir.StmtStore:
+			if int(sk.Pointer) < len(fn.Expressions) && int(sk.Value) < len(fn.Expressions) {
+				lv, isLocal := fn.Expressions[sk.Pointer].Kind.(ir.ExprLocalVariable)
+				compose, isCompose := fn.Expressions[sk.Value].Kind.(ir.ExprCompose)
+				if isLocal && lv.Variable == varIdx && isCompose && len(compose.Components) == len(fieldPtrs) {
+					for f, comp := range compose.Components {
+						out = append(out, ir.Statement{Kind: ir.StmtStore{Pointer: fieldPtrs[uint32(f)], Value: comp}}) //nolint:gosec // member count fits uint32
+					}
+					continue
+				}
+			}
+			out = append(out, block[i])
+		case ir.StmtBlock:
+			out = append(out, ir.Statement{Kind: ir.StmtBlock{Block: splitFullStores(fn, sk.Block, varIdx, fieldPtrs)}})
+		case ir.StmtIf:
+			out = append(out, ir.Statement{Kind: ir.StmtIf{
+				Condition: sk.Condition,
+				Accept:    splitFullStores(fn, sk.Accept, varIdx, fieldPtrs),
+				Reject:    splitFullStores(fn, sk.Reject, varIdx, fieldPtrs),
+			}})
+		case ir.StmtLoop:
+			out = append(out, ir.Statement{Kind: ir.StmtLoop{
+				Body:       splitFullStores(fn, sk.Body, varIdx, fieldPtrs),
+				Continuing: splitFullStores(fn, sk.Continuing, varIdx, fieldPtrs),
+				BreakIf:    sk.BreakIf,
+			}})
+		case ir.StmtSwitch:
+			cases := make([]ir.SwitchCase, len(sk.Cases))
+			for j := range sk.Cases {
+				cases[j] = ir.SwitchCase{Value: sk.Cases[j].Value, Body: splitFullStores(fn, sk.Cases[j].Body, varIdx, fieldPtrs), FallThrough: sk.Cases[j].FallThrough}
+			}
+			out = append(out, ir.Statement{Kind: ir.StmtSwitch{Selector: sk.Selector, Cases: cases}})
+		default:
+			out = append(out, block[i])
+		}
+	}
+	return out
 }
 
 // insertEmitForRange finds the StmtEmit that contains targetH and
